@@ -56,7 +56,7 @@ class _BaseAttribute(ABC):
                 return cls.Complex
             if txt in {"double", "\"double\"", "float", "\"float\""}:
                 return cls.Float
-            if txt in {"index_t", "\"index_t\"", "int", "\"int\"", "\"signed_index_t\""}:
+            if txt in {"index_t", "\"index_t\"", "int", "\"int\"", "\"signed_index_t\"", "char", "\"char\""}:
                 return cls.Int
             if txt in {"bool", "\"bool\""}:
                 return cls.Bool
